@@ -236,7 +236,7 @@ IMP_THEOREMS = ["gen_impersonate_ip_eq", "gen_impersonate_options_eq", "gen_impe
 
 
 SIG_THEOREMS = ["gen_is_wildcard_eq", "gen_parse_number_in_range_eq", "gen_parse_from_options_eq", "gen_split_parts_eq", "gen_parse_ttl_eq", "gen_parse_window_eq",
-                "gen_parse_options_eq", "gen_parse_quirks_eq", "gen_TCPSignature_parse_eq", "gen_MTUSignature_parse_eq",
+                "gen_parse_options_eq", "gen_parse_quirks_eq", "gen_TCPSignature_parse_eq", "gen_MTUSignature_parse_eq", "gen_TCPOptions_dump_eq", "gen_dump_quirks_eq",
                 "C10_translated_tcp_ranges", "C09_translated_sig_roundtrip", "C18_translated_layout", "C18_translated_quirks", "C10_translated_mtu_range"]
 
 
